@@ -38,7 +38,7 @@ var (
 	c03SentRuns  int
 )
 
-const c03AfterLimit = 5 * time.Second
+const c03AfterLimit = 20 * time.Second
 
 func c03OpModel(expr string) string {
 	return "[request_definition]\nr = sub, obj, act\n[policy_definition]\np = sub, obj, act\n[policy_effect]\ne = some(where (p.eft == allow))\n[matchers]\nm = r.sub == p.sub && " + expr + "\n"
